@@ -3,13 +3,23 @@ ENGINES = [
      "kind_free_text": "crash-point enumeration over the syscall log (strace) of the real writer: all byte prefixes of the write sequence, recovery and restart executed on the real library"},
     {"name": "gridmc", "path": "mc/checks", "serves_properties": ["C18"],
      "kind_free_text": "exhaustive enumeration of finite option lattices / member lists crossed with small branch-covering data alphabets, each point compared with an oracle independent of REBOUND"},
-    {"name": "histmc", "path": "mc/histmc.py", "serves_properties": ["C05", "C06", "C08", "C09", "C14", "C17"],
+    {"name": "histmc", "path": "mc/histmc.py", "serves_properties": ["C05", "C06", "C08", "C09", "C13", "C14", "C17"],
      "kind_free_text": "explicit-state breadth-first exploration of operation histories on the real library object (state = history, canonical digest de-duplication, reference-model oracle on every transition)"},
 ]
 NOTES = ("All checks explore the real implementation rebuilt from /repo's working tree (mc/build.py); no abstract model is used, "
          "so traces_validated_against_impl equals the number of executed transitions. known_findings.json lists repaired defects (fixed:) and recorded ones.")
 NOT_APPLICABLE = {}
 CHECKS = {
+    "C13": {
+        "engine": "histmc", "category": "model_checking",
+        "technique": "exhaustive enumeration of sphere placements x search modes x boundaries (detection) and of every processing order of the pending-collision list (resolution) on the real ASan-built library",
+        "text": "Detection: ~4400 placements of 2-6 spheres (lattice positions, +-velocities, radii patterns incl. zero, 1:10, and every insertion order of two big bodies whose tree cells are smaller than their radii) x {direct, line, tree, linetree} x {no boundary, periodic ghost ring}: "
+                "a recording resolver must receive every pair the harness itself finds overlapping-and-approaching (line modes: swept paths within the sum of radii), images included. "
+                "Resolution: 8 clusters (pair, unequal pair, chain, triangle, two pairs, crossed pairs, 4-chain, growing merger) x 4 search modes x keep_sorted x {merge, hardsphere} under EVERY permutation of the pending list that the internal shuffle can produce "
+                "(one rand_seed per permutation, found by simulating the shuffle with libc's rand_r; 12k orders) over 3 steps: mass, momentum, centre of mass, particle identity (no hash lost, duplicated or foreign), N, kinetic energy at restitution 1; "
+                "plus hard-sphere bounces against sheared images (momentum, separation afterwards).",
+        "note": "Pairs within 1e-9 of the threshold are not demanded; extra pairs are allowed; order enumeration is capped at 720 (quick) / 5040 (thorough) permutations per case and the evidence lists capped cases.",
+    },
     "C08": {
         "engine": "histmc", "category": "model_checking",
         "technique": "exhaustive enumeration of integrate() call histories over a lattice of integrators x step sizes x start times x target offsets x directions x exact_finish_time, with a recording heartbeat; exit conditions placed at every chosen step boundary",
